@@ -332,3 +332,26 @@ pub fn run(ctx: &Ctx, rep: &mut Report) {
 pub fn replay(_sub: &str, case: &Value) -> Result<(), String> {
     check(&from_json(case), &mut Stats::new())
 }
+
+/// Fuzz entry: bytes -> small object + operation history -> history invariants.
+pub fn fuzz_one(data: &[u8]) -> Result<(), String> {
+    use arbitrary::Unstructured;
+    let mut u = Unstructured::new(data);
+    let (al, tu) = [(1usize, 1usize), (1, 2), (1, 5), (2, 2), (4, 3), (8, 1), (1, 16)][u.int_in_range(0..=6usize).unwrap_or(0)];
+    let z = u.int_in_range(1..=3usize).unwrap_or(1);
+    let kt = u.int_in_range(z..=z * 20).unwrap_or(z);
+    let t = al * tu;
+    let spec = ObjectSpec { al, tu, z, n: u.int_in_range(1..=tu.min(3)).unwrap_or(1), kt, r: u.int_in_range(1..=t).unwrap_or(t), class: u.int_in_range(0..=4u64).unwrap_or(0), seed: u.arbitrary().unwrap_or(0) };
+    let mut ops = vec![];
+    while !u.is_empty() && ops.len() < 260 {
+        let b: u8 = u.arbitrary().unwrap_or(0);
+        ops.push(match b % 25 {
+            0..=19 => Op::Deliver(u.arbitrary().unwrap_or(0)),
+            20..=22 => Op::Flush,
+            23 => Op::Clone,
+            _ => Op::Checkpoint,
+        });
+    }
+    let c = Case { spec, ops };
+    check(&c, &mut Stats::new()).map_err(|m| format!("{m} | case {}", to_json(&c)))
+}
